@@ -58,7 +58,8 @@ def _case(draw, tier):
                 if ins:
                     m = {v: v + "_i" for v in ins}
                     w["graph"]["nodes"] = [{**x, "params": [m.get(q, q) for q in x["params"]]} for x in w["graph"]["nodes"]]
-                    w["renames"] = [{"kind": "inputs", "map": {vi: v for v, vi in m.items()}}]
+                    # the wrapper may already have been looked at / used in a graph before it is renamed
+                    w["renames"] = ([{"kind": "warm"}] if draw(st.booleans()) else []) + [{"kind": "inputs", "map": {vi: v for v, vi in m.items()}}]
         nodes = outer
         depth = 1 if any(w["k"] == "graph" for w in outer) else 0
     elif depth:
